@@ -28,7 +28,7 @@ func init() {
 	Register(&c02{base{
 		id: "C02", level: "exploration",
 		technique: "Go race detector over concurrent client scripts on one shared engine (reports parsed from the race log, deduplicated by function pair) + fatal-exit watch + per-call comparison with serially pre-computed results + porcupine linearizability check of RegisterString/Render histories; yield injection at hook points",
-		rule: "case = schedule (seed, goroutines 2-32, GOMAXPROCS, yield probability, cache mode on/off/auto-reload, loader kind array/chain/filesystem) of 40-300 calls mixing Render, RenderTo, Load, ParseTemplate+Render and RegisterString on one engine, released by a barrier on names not cached yet. " +
+		rule: "case = schedule (seed, goroutines 2-32, GOMAXPROCS, yield probability, cache mode on/off/auto-reload, loader kind array/chain/filesystem) of 40-300 calls mixing Render, RenderTo, Load, ParseTemplate+Render and RegisterString on one engine, released by a barrier on names not cached yet; every goroutine also does first parses of >4096-byte templates whose identifiers no earlier parse in the process has seen (expected output known by construction, so nothing warms the process-wide caches beforehand). " +
 			"Every call's result is compared with the result of a fresh engine doing that call alone; relative includes must contain the marker of the sibling template and never that of the same-named template in another directory; even-numbered schedules run under -race. " +
 			"Non-trivial: >= 4 goroutines and >= 2 kinds of call. Distinct = distinct schedule tuples.",
 		assumptions: []string{
@@ -40,11 +40,11 @@ func init() {
 	}})
 }
 
-func (p *c02) Shards(tier string) int           { return 16 }
-func (p *c02) CaseTimeoutSec(tier string) int   { return 240 }
+func (p *c02) Shards(tier string) int             { return 16 }
+func (p *c02) CaseTimeoutSec(tier string) int     { return 240 }
 func (p *c02) RaceCase(idx int, tier string) bool { return idx%2 == 0 }
 func (p *c02) RequiredCounters(string) []string {
-	return []string{"calls-compared", "relative-includes-checked", "porcupine-ok", "yield-hits"}
+	return []string{"calls-compared", "relative-includes-checked", "porcupine-ok", "yield-hits", "big-first-parses"}
 }
 
 var reRaceFrame = regexp.MustCompile(`(?m)^\s+(github\.com/semihalev/twig\.(?:\(\*?\w+\)\.)?[\w.]+)\(`)
@@ -189,6 +189,29 @@ type c02World struct {
 	dir       string
 	regNames  []string
 	parseSrcs []string
+	bigNames  []string               // >4096-byte templates with identifiers no earlier parse has seen (first parse happens in the concurrent phase)
+	bigWant   map[string]string      // name -> expected output without the trailing {{ v }} value
+	bigVals   map[string]interface{} // values of the fresh identifiers
+	bigTag    string
+}
+
+// c02Big builds a template above the large-tokenizer threshold whose print tags use identifiers unique to tag; its output is
+// known by construction, so no serial pre-run (which would warm the engine's process-wide caches) is needed.
+func c02Big(tag string) (src string, vals map[string]interface{}, want string) {
+	filler := strings.Repeat("<p>big template filler line</p>\n", 140)
+	var sb, wb strings.Builder
+	sb.WriteString(c02Marker(tag) + filler)
+	wb.WriteString(c02Marker(tag) + filler)
+	vals = map[string]interface{}{}
+	for j := 0; j < 24; j++ {
+		id := fmt.Sprintf("%s_%d", tag, j)
+		val := fmt.Sprintf("[%s.%d]", tag, j)
+		vals[id] = val
+		sb.WriteString("{{ " + id + " }};")
+		wb.WriteString(val + ";")
+	}
+	sb.WriteString("{{ v }}")
+	return sb.String(), vals, wb.String()
 }
 
 func (p *c02) world(r *core.Rand, sched c02Schedule) (*c02World, error) {
@@ -217,6 +240,18 @@ func (p *c02) world(r *core.Rand, sched c02Schedule) (*c02World, error) {
 	}
 	sort.Strings(w.entries)
 	w.regNames = []string{"reg0", "reg1"}
+	w.bigTag = fmt.Sprintf("bw%dx%d", r.Intn(1<<30), r.Intn(1<<30))
+	w.bigWant, w.bigVals = map[string]string{}, map[string]interface{}{}
+	for n := 0; n < 4; n++ {
+		name := fmt.Sprintf("big%d", n)
+		src, vals, want := c02Big(fmt.Sprintf("%sn%d", w.bigTag, n))
+		w.srcs[name] = src
+		w.bigWant[name] = want
+		for k, v := range vals {
+			w.bigVals[k] = v
+		}
+		w.bigNames = append(w.bigNames, name)
+	}
 	w.parseSrcs = []string{gen["plain"], "{% for i in [1, 2, 3] %}{{ i }}{{ s }}{% endfor %}" + c02Marker("parsed"), gen["part2"]}
 	if sched.Loader == "fs" {
 		dir, err := os.MkdirTemp("", "verif-c02-")
@@ -308,6 +343,9 @@ func (w *c02World) ctx(k int) map[string]interface{} {
 	m["pobj"] = &c02Obj{Name: fmt.Sprintf("pobj%d", k), Count: 20 + k}
 	m["objs"] = []c02Obj{{Name: "a", Count: 1}, {Name: "b", Count: 2}}
 	m["other"] = c02Other{Title: fmt.Sprintf("title%d", k), N: k}
+	for id, v := range w.bigVals {
+		m[id] = v
+	}
 	return m
 }
 
@@ -338,6 +376,14 @@ func (p *c02) doCall(e *twig.Engine, w *c02World, c c02Call) (out string, failed
 			t, err = e.ParseTemplate(w.parseSrcs[c.Ver%len(w.parseSrcs)])
 			if err == nil {
 				out, err = t.Render(w.ctx(c.CtxK))
+			}
+		case "bigParse":
+			src, vals, _ := c02Big(fmt.Sprintf("%sp%d", w.bigTag, c.Ver))
+			vals["v"] = fmt.Sprintf("V%d", c.CtxK)
+			var t *twig.Template
+			t, err = e.ParseTemplate(src)
+			if err == nil {
+				out, err = t.Render(vals)
 			}
 		case "register":
 			err = e.RegisterString(c.Name, c02RegSrc(c.Name, c.Ver))
@@ -427,6 +473,15 @@ func (p *c02) Run(rec *core.Recorder, seed uint64, idx int, tier string) {
 			}
 			kinds[c.Kind] = true
 			scripts[g] = append(scripts[g], c)
+			// first parses of large templates with never-seen identifiers, several goroutines at the same names
+			if i == 0 || r.P(1, 12) {
+				ck := r.Intn(3)
+				big := c02Call{Kind: []string{"render", "renderTo", "load"}[r.Intn(3)], Name: w.bigNames[r.Intn(len(w.bigNames))], CtxK: ck}
+				if r.P(1, 2) {
+					big = c02Call{Kind: "bigParse", Ver: g*10000 + i, CtxK: ck}
+				}
+				scripts[g] = append(scripts[g], big)
+			}
 		}
 	}
 
@@ -446,6 +501,19 @@ func (p *c02) Run(rec *core.Recorder, seed uint64, idx int, tier string) {
 				k.ctxK = 0
 			}
 			if _, ok := expected[k]; ok {
+				continue
+			}
+			if c.Kind == "bigParse" || strings.HasPrefix(c.Name, "big") {
+				rec.Count("big-first-parses", 1)
+				switch {
+				case c.Kind == "bigParse":
+					_, _, want := c02Big(fmt.Sprintf("%sp%d", w.bigTag, c.Ver))
+					expected[k] = c02Rec{out: want + fmt.Sprintf("V%d", c.CtxK)}
+				case c.Kind == "load":
+					expected[k] = c02Rec{}
+				default:
+					expected[k] = c02Rec{out: w.bigWant[c.Name] + fmt.Sprintf("V%d", c.CtxK)}
+				}
 				continue
 			}
 			e := w.newEngine(sched)
